@@ -181,6 +181,31 @@ Theorem C15_openssh_container_roundtrip_encrypted :
 Proof. exact openssh_container_roundtrip_encrypted. Qed.
 Print Assumptions C15_openssh_container_roundtrip_encrypted.
 
+(* Which paddings the importer accepts: 1,2,..,k for EVERY k below 256 - whatever block size the
+   writer padded to (OpenSSH 0..7 bytes, cryptography 1..8, ...). *)
+Theorem C15_openssh_padding_accepted :
+  forall (params : Type) (enc_priv : params -> bytes) (dec_priv : bytes -> option (params * bytes)),
+  (forall p rest, dec_priv (enc_priv p ++ rest) = Some (p, rest)) ->
+  forall encrypted check p comment k,
+  length check = 4%nat -> zlen comment < 2 ^ 32 -> (k < 256)%nat ->
+  openssh_private_section params dec_priv encrypted
+    (check ++ check ++ enc_priv p ++ sshstring comment ++ count_from 1 k) = OOk (p, comment).
+Proof.
+  intros params enc_priv dec_priv H.
+  exact (private_section_padding_accepted params enc_priv dec_priv (fun _ => false) (fun _ => 8)
+           (fun _ _ _ _ => []) (fun _ _ d => (d, [])) (fun _ _ d _ => Some d) H).
+Qed.
+Print Assumptions C15_openssh_padding_accepted.
+
+(* The private key record - String(alg) then strings/mpints and, for the security-key types, the
+   one-byte FLAGS - is read back field by field (the flags byte unchanged, any value).  This is the
+   handler premise of the container theorems, proved for the real record layouts. *)
+Theorem C15_key_record_roundtrip : forall layout_of (r : krecord) rest,
+  layout_of (fst r) = Some (map field_is_str (snd r)) -> zlen (fst r) < 2 ^ 32 -> Forall field_ok (snd r) ->
+  dec_record layout_of (enc_record r ++ rest) = Some (r, rest).
+Proof. exact record_roundtrip. Qed.
+Print Assumptions C15_key_record_roundtrip.
+
 (* differing check integers are rejected *)
 Theorem C15_openssh_check_mismatch_rejected :
   forall (params : Type) (dec_priv : bytes -> option (params * bytes)) encrypted c1 c2 rest,
@@ -304,3 +329,10 @@ Example C15_two_blocks_example :
   match_next (fun _ => false) (b1 ++ b2) PRIVATE_KEY false = FPem [] [] [1; 2; 3] (NL :: b2) /\
   match_next (fun _ => false) (NL :: b2) PRIVATE_KEY false = FPem [82; 83; 65] [] [4; 5] [].
 Proof. vm_compute. split; reflexivity. Qed.
+
+(* a security-key record with flags 0x25 (user presence, verify-required, resident) keeps its flags *)
+Example C15_sk_record_example :
+  dec_record (fun _ => Some SK_ED25519_LAYOUT)
+    (enc_record ([115; 107], [FStr [1; 2]; FStr [115; 115; 104; 58]; FByte 37; FStr [9; 9; 9]; FStr []]) ++ [0; 0; 0; 0]) =
+  Some (([115; 107], [FStr [1; 2]; FStr [115; 115; 104; 58]; FByte 37; FStr [9; 9; 9]; FStr []]), [0; 0; 0; 0]).
+Proof. vm_compute. reflexivity. Qed.
